@@ -170,6 +170,29 @@ VQ_OP(sm) {
                  case 4: return sm_run<4>(t); case 5: return sm_run<5>(t); case 6: return sm_run<6>(t);
                  default: return "UNSUPPORTED"; }
 }
+
+// rectangular blocks: product N x K times K x M, adjoint and inner product of N x M
+template <int N, int K, int M> static std::string smr_mul(Tok &t) {
+    auto a = mk<N,K>(t.vec()); auto b = mk<K,M>(t.vec()); return show(un<N,M>(a * b));
+}
+template <int N, int M> static std::string smr_adj(Tok &t) {
+    auto a = mk<N,M>(t.vec()); return show(un<M,N>(amgcl::math::adjoint(a)));
+}
+template <int N, int M> static std::string smr_inner(Tok &t) {
+    auto a = mk<N,M>(t.vec()); auto b = mk<N,M>(t.vec()); return show(un1(amgcl::math::inner_product(a, b)));
+}
+VQ_OP(smr) {
+    std::string op = t.s(); long N = t.i(), K = t.i(), M = t.i();
+    long key = N * 100 + K * 10 + M;
+    if (op == "mul") switch (key) {
+        case 232: return smr_mul<2,3,2>(t); case 324: return smr_mul<3,2,4>(t); case 132: return smr_mul<1,3,2>(t);
+        case 213: return smr_mul<2,1,3>(t); case 343: return smr_mul<3,4,3>(t); case 421: return smr_mul<4,2,1>(t); }
+    if (op == "adj") switch (key) {   // K unused (= 0)
+        case 203: return smr_adj<2,3>(t); case 302: return smr_adj<3,2>(t); case 104: return smr_adj<1,4>(t); case 304: return smr_adj<3,4>(t); }
+    if (op == "inner") switch (key) {
+        case 302: return smr_inner<3,2>(t); case 203: return smr_inner<2,3>(t); case 402: return smr_inner<4,2>(t); }
+    return "UNSUPPORTED";
+}
 // algebraic identities evaluated on the implementation; prints one flag per identity
 template <int B> static std::string smident_run(Tok &t) {
     namespace m = amgcl::math;
@@ -216,6 +239,17 @@ template <class V> static std::string qrsolve_run(Tok &t) {
     qr.solve((int)m, (int)n, A.data(), b.data(), x.data(), ord ? amgcl::detail::col_major : amgcl::detail::row_major);
     return show(x);
 }
+
+// compute() first, then solve(..., computed = true): rows >= cols only
+template <class V> static std::string qrsolvec_run(Tok &t) {
+    long ord = t.i(), m = t.i(), n = t.i(); std::vector<V> A = t.vecT<V>(); std::vector<V> b = t.vecT<V>();
+    std::vector<V> x(n, V(55));
+    amgcl::detail::QR<V> qr;
+    auto o = ord ? amgcl::detail::col_major : amgcl::detail::row_major;
+    qr.compute((int)m, (int)n, A.data(), o);
+    qr.solve((int)m, (int)n, A.data(), b.data(), x.data(), o, true);
+    return show(x);
+}
 // two factorizations / solves on ONE QR object: the second result must not depend on the first
 template <class V> static std::string qr2_run(Tok &t) {
     long ord1 = t.i(), m1 = t.i(), n1 = t.i(); std::vector<V> A1 = t.vecT<V>();
@@ -242,6 +276,7 @@ static std::string d_sky(Tok &t) { return guarded(d_sky_, t); }
 
 int main() {
     auto &r = vq::registry();
+    r["qrsolvec"] = qrsolvec_run<Q>; r["d.qrsolvec"] = qrsolvec_run<double>;
     r["qr"] = qr_run<Q>; r["qrsolve"] = qrsolve_run<Q>; r["qr2"] = qr2_run<Q>;
     r["d.qr"] = qr_run<double>; r["d.qrsolve"] = qrsolve_run<double>; r["d.qr2"] = qr2_run<double>;
     r["d.inv"] = d_inv; r["d.sky"] = d_sky;
